@@ -1,0 +1,129 @@
+//go:build verif
+
+// Machine-checked contracts for package interpreter (read by /verif/govc; comments only).
+//
+// C06: the request state machine. For every lifecycle method:
+//   callassert  - a successor is entered only under the return action the Fastly lifecycle names
+//   mustcall    - every successful path has entered the documented successor (no dropped edge)
+//   log-once    - ghost counter g_logRuns: a request that ends without error (and is not a purge
+//                 request) has run the log state exactly once more than before
+//   decreases   - (MaxVarnishRestarts - restarts, rank): the mutual recursion through restart()
+//                 is bounded (C06 "at most three restarts", C08 "never runs forever")
+
+package interpreter
+
+//@ ghost field interpreter.Interpreter.g_logRuns int
+
+//@ pred okI(i *Interpreter) = i != nil && i.ctx != nil && i.ctx.Restarts >= 0 && i.ctx.Restarts <= limitations.MaxVarnishRestarts
+//@ pred logOnce(i *Interpreter, err error) = err == nil && i.ctx != nil && !i.ctx.IsPurgeRequest ==> i.g_logRuns == old(i.g_logRuns) + 1
+//@ pred measure(i *Interpreter) = limitations.MaxVarnishRestarts - i.ctx.Restarts
+
+//@ func (*Interpreter).ProcessRecv [C06 C08]
+//@   requires okI(i)
+//@   decreases measure(i)
+//@   rank 9
+//@   callassert [succ-ProcessPass] ProcessPass: state == PASS
+//@   callassert [succ-ProcessError] ProcessError: state == ERROR
+//@   callassert [succ-restart] restart: state == RESTART
+//@   callassert [succ-ProcessHash] ProcessHash: state == PASS || state == LOOKUP || state == NONE
+//@   callassert [succ-ProcessHit] ProcessHit: state == LOOKUP || state == NONE
+//@   callassert [succ-ProcessMiss] ProcessMiss: state == LOOKUP || state == NONE
+//@   mustcall [edge-ProcessPass] ProcessPass when err == nil && i.ctx != nil && !i.ctx.IsPurgeRequest && ($state == PASS)
+//@   mustcall [edge-ProcessError] ProcessError when err == nil && i.ctx != nil && !i.ctx.IsPurgeRequest && ($state == ERROR)
+//@   mustcall [edge-restart] restart when err == nil && i.ctx != nil && !i.ctx.IsPurgeRequest && ($state == RESTART)
+//@   mustcall [edge-ProcessHash] ProcessHash when err == nil && i.ctx != nil && !i.ctx.IsPurgeRequest && ($state == PASS || $state == LOOKUP || $state == NONE)
+//@   ensures [log-once C06] logOnce(i, err)
+//@   callassert [hit-flag C06] ProcessHit: i.process.Cached && i.ctx.State == "HIT" && $v != nil
+//@   callassert [miss-flag C06] ProcessMiss: i.ctx.State == "MISS" && $v == nil
+
+//@ func (*Interpreter).ProcessHit [C06 C08]
+//@   requires okI(i)
+//@   decreases measure(i)
+//@   rank 8
+//@   callassert [succ-ProcessDeliver] ProcessDeliver: state == DELIVER
+//@   callassert [succ-ProcessPass] ProcessPass: state == PASS
+//@   callassert [succ-ProcessError] ProcessError: state == ERROR
+//@   callassert [succ-restart] restart: state == RESTART
+//@   mustcall [edge-ProcessDeliver] ProcessDeliver when err == nil && i.ctx != nil && !i.ctx.IsPurgeRequest && ($state == DELIVER)
+//@   mustcall [edge-ProcessPass] ProcessPass when err == nil && i.ctx != nil && !i.ctx.IsPurgeRequest && ($state == PASS)
+//@   mustcall [edge-ProcessError] ProcessError when err == nil && i.ctx != nil && !i.ctx.IsPurgeRequest && ($state == ERROR)
+//@   mustcall [edge-restart] restart when err == nil && i.ctx != nil && !i.ctx.IsPurgeRequest && ($state == RESTART)
+//@   ensures [log-once C06] logOnce(i, err)
+
+//@ func (*Interpreter).ProcessMiss [C06 C08]
+//@   requires okI(i)
+//@   decreases measure(i)
+//@   rank 8
+//@   callassert [succ-ProcessFetch] ProcessFetch: state == FETCH
+//@   callassert [succ-ProcessDeliver] ProcessDeliver: state == DELIVER_STALE
+//@   callassert [succ-ProcessPass] ProcessPass: state == PASS
+//@   callassert [succ-ProcessError] ProcessError: state == ERROR
+//@   mustcall [edge-ProcessFetch] ProcessFetch when err == nil && i.ctx != nil && !i.ctx.IsPurgeRequest && ($state == FETCH)
+//@   mustcall [edge-ProcessDeliver] ProcessDeliver when err == nil && i.ctx != nil && !i.ctx.IsPurgeRequest && ($state == DELIVER_STALE)
+//@   mustcall [edge-ProcessPass] ProcessPass when err == nil && i.ctx != nil && !i.ctx.IsPurgeRequest && ($state == PASS)
+//@   mustcall [edge-ProcessError] ProcessError when err == nil && i.ctx != nil && !i.ctx.IsPurgeRequest && ($state == ERROR)
+//@   ensures [log-once C06] logOnce(i, err)
+
+//@ func (*Interpreter).ProcessPass [C06 C08]
+//@   requires okI(i)
+//@   decreases measure(i)
+//@   rank 7
+//@   callassert [succ-ProcessFetch] ProcessFetch: state == PASS
+//@   callassert [succ-ProcessError] ProcessError: state == ERROR
+//@   mustcall [edge-ProcessFetch] ProcessFetch when err == nil && i.ctx != nil && !i.ctx.IsPurgeRequest && ($state == PASS)
+//@   mustcall [edge-ProcessError] ProcessError when err == nil && i.ctx != nil && !i.ctx.IsPurgeRequest && ($state == ERROR)
+//@   ensures [log-once C06] logOnce(i, err)
+
+//@ func (*Interpreter).ProcessFetch [C06 C08]
+//@   requires okI(i)
+//@   decreases measure(i)
+//@   rank 6
+//@   callassert [succ-ProcessDeliver] ProcessDeliver: state == DELIVER || state == DELIVER_STALE || state == PASS || state == HIT_FOR_PASS
+//@   callassert [succ-ProcessError] ProcessError: state == ERROR
+//@   callassert [succ-restart] restart: state == RESTART
+//@   mustcall [edge-ProcessDeliver] ProcessDeliver when err == nil && i.ctx != nil && !i.ctx.IsPurgeRequest && ($state == DELIVER || $state == DELIVER_STALE || $state == PASS || $state == HIT_FOR_PASS)
+//@   mustcall [edge-ProcessError] ProcessError when err == nil && i.ctx != nil && !i.ctx.IsPurgeRequest && ($state == ERROR)
+//@   mustcall [edge-restart] restart when err == nil && i.ctx != nil && !i.ctx.IsPurgeRequest && ($state == RESTART)
+//@   ensures [log-once C06] logOnce(i, err)
+
+//@ func (*Interpreter).ProcessError [C06 C08]
+//@   requires okI(i)
+//@   decreases measure(i)
+//@   rank 5
+//@   callassert [succ-ProcessDeliver] ProcessDeliver: state == DELIVER || state == DELIVER_STALE
+//@   callassert [succ-restart] restart: state == RESTART
+//@   mustcall [edge-ProcessDeliver] ProcessDeliver when err == nil && i.ctx != nil && !i.ctx.IsPurgeRequest && ($state == DELIVER || $state == DELIVER_STALE)
+//@   mustcall [edge-restart] restart when err == nil && i.ctx != nil && !i.ctx.IsPurgeRequest && ($state == RESTART)
+//@   ensures [log-once C06] logOnce(i, err)
+
+//@ func (*Interpreter).ProcessDeliver [C06 C08]
+//@   requires okI(i)
+//@   decreases measure(i)
+//@   rank 4
+//@   callassert [succ-ProcessLog] ProcessLog: state == LOG || state == DELIVER
+//@   callassert [succ-restart] restart: state == RESTART
+//@   mustcall [edge-ProcessLog] ProcessLog when err == nil && i.ctx != nil && !i.ctx.IsPurgeRequest && ($state == LOG || $state == DELIVER)
+//@   mustcall [edge-restart] restart when err == nil && i.ctx != nil && !i.ctx.IsPurgeRequest && ($state == RESTART)
+//@   ensures [log-once C06] logOnce(i, err)
+
+//@ func (*Interpreter).ProcessLog [C06 C08]
+//@   requires okI(i)
+//@   decreases measure(i)
+//@   rank 2
+//@   ghost-effect i.g_logRuns = i.g_logRuns + 1
+//@   ensures [log-counted C06] i.g_logRuns == old(i.g_logRuns) + 1
+//@   callers [only-deliver-enters-log C06] ProcessDeliver
+
+//@ func (*Interpreter).ProcessHash [C06 C08]
+//@   requires okI(i)
+//@   decreases measure(i)
+//@   rank 3
+//@   ensures [no-log C06] i.g_logRuns == old(i.g_logRuns)
+
+//@ func (*Interpreter).restart [C06 C08]
+//@   requires okI(i)
+//@   decreases measure(i)
+//@   rank 1
+//@   ensures [log-once C06] logOnce(i, err)
+//@   ensures [bounded C06] err == nil ==> old(i.ctx.Restarts) < limitations.MaxVarnishRestarts
+//@   callassert [restart-bound C06] ProcessRecv: i.ctx.Restarts <= limitations.MaxVarnishRestarts && i.ctx.Restarts == old(i.ctx.Restarts) + 1
